@@ -36,6 +36,19 @@ def menu(tier):
                                        '( v ( f a ) ) ( w ( f b ) ) ) ( g v b']),
                             strat,
                             j, [], budget=b if j > 1 else 0))
+    # a success of a late (cosmetic) mutator that enables a proposal of a
+    # main mutator: shortening ab to a makes ReplaceByVariable's a -> aa legal
+    rename = '''(declare-const ab Bool)
+(declare-const aa Bool)
+(assert (or ab ab))
+'''
+    for strat in ('hierarchical', 'hybrid'):
+        for j in (1, 2):
+            scn.append(S.mk(f'rename-enables/{strat}/j{j}', rename,
+                            ('re', r'^(\( declare-const [abc]+ Bool \) ){2,3}'
+                             r'(\( assert \( or [abc]+ [abc]+ \) \) ?){1,2}$'),
+                            strat, j, [],
+                            budget=b if j > 1 else 0))
     for inp, ms in (('micro', 'core'), ('micro2', 'core'),
                     ('micro2', 'erase'), ('micro', 'boolean')):
         for strat in ('hierarchical', 'hybrid'):
